@@ -948,6 +948,7 @@ func (w *qWorld) resolveUncertain() {
 			continue
 		}
 		c.Uncertain = false
+		c.notListedBefore = time.Now() // it may have been deleted and created again: a new object, listed at the next refresh
 		sc := doc.channel(c.Topic, c.Name)
 		if sc != nil && !c.Exists {
 			c.CreatedSeq = w.rc.Net.NextSeq()
@@ -1638,6 +1639,12 @@ func (w *qWorld) lateSlack() time.Duration {
 	return time.Duration(ticks)*ms(w.cfg.ScanIntervalMs) + 2*ms(w.cfg.ScanRefreshMs) + time.Second
 }
 
+// lateSlackListed: the same for a channel the scanner already has in its list (the list is rebuilt every
+// refresh interval; between two rebuilds every listed channel is drawn with the same probability per tick).
+func (w *qWorld) lateSlackListed() time.Duration {
+	return w.lateSlack() - 2*ms(w.cfg.ScanRefreshMs)
+}
+
 // checkLate (C04, "boundedly late"): an unanswered message cannot stay with
 // its holder beyond max-msg-timeout after delivery (however often it is
 // touched); once that has passed, plus scan slack, it must have been handed
@@ -1674,6 +1681,11 @@ func (w *qWorld) checkLate() {
 			continue
 		}
 		for _, d := range mine {
+			slack := slack
+			if refresh2 := 2 * ms(w.cfg.ScanRefreshMs); !cm.notListedBefore.IsZero() && !cm.notListedBefore.Add(refresh2).After(d.At.Add(co.MsgTimeout)) {
+				// the channel had been in the scanner's list for a while when this delivery could first expire
+				slack = w.lateSlackListed()
+			}
 			limit := d.At.Add(ms(w.cfg.MaxMsgTimeoutMs)).Add(slack)
 			if cm.unpausedAt.After(d.At) {
 				limit = cm.unpausedAt.Add(ms(w.cfg.MaxMsgTimeoutMs)).Add(slack)
